@@ -28,9 +28,15 @@ struct Shm {
 static Shm *g_shm = nullptr;
 static vx::Explorer EX;
 
+// A unit explored with two deviations is split into slices by the position of the *first* deviation
+// (choice-point index mod g_nsplit): until a deviation has been taken, points of other slices offer
+// only their default.
+static int g_slice = 0, g_nsplit = 1, g_devs = 0;
 static int choose(int n, const char *label) {
-  int c = EX.choose(n, label);
   int k = g_shm->ntrace;
+  if (g_devs == 0 && g_nsplit > 1 && (k % g_nsplit) != g_slice) n = 1;
+  int c = EX.choose(n, label);
+  if (c) ++g_devs;
   if (k < 4096) { g_shm->n[k] = n; g_shm->chosen[k] = c; g_shm->ntrace = k + 1; } else g_shm->overflow = 1;
   return c;
 }
@@ -213,7 +219,8 @@ static std::set<std::string> g_sent;
 static void send_once(const char *tag, const std::string &v) { if (g_sent.insert(std::string(tag) + v).second) wr(std::string(tag) + "\t" + tabsafe(v)); }
 
 static std::string replay_json(int unit) {
-  std::string s = "{\"layer\":\"P\",\"unit\":" + std::to_string(unit) + ",\"thorough\":" + (g_thorough ? "true" : "false") + ",\"prefix\":[";
+  std::string s = "{\"layer\":\"P\",\"unit\":" + std::to_string(unit) + ",\"slice\":" + std::to_string(g_slice) + ",\"nsplit\":" +
+                  std::to_string(g_nsplit) + ",\"prefix\":[";
   for (int i = 0; i < g_shm->ntrace; ++i) { if (i) s += ','; s += std::to_string(g_shm->chosen[i]); }
   return s + "]}";
 }
@@ -307,8 +314,8 @@ static void child_unit(int out_fd, int ui, bool single) {
   signal(SIGALRM, SIG_DFL);
   const Unit &u = g_units[ui];
   for (;;) {
-    EX.trace.clear(); EX.pos = 0; g_shm->ntrace = 0;
-    bool is_default = EX.prefix.empty();
+    EX.trace.clear(); EX.pos = 0; g_shm->ntrace = 0; g_devs = 0;
+    bool is_default = EX.prefix.empty() && g_slice == 0;
     alarm(single ? 120 : 10);
     run_execution(ui, u, is_default);
     alarm(0);
@@ -334,6 +341,7 @@ static int spawn(int ui, bool single) {
     std::vector<std::string> a(g_argv, g_argv + g_argc);
     std::string pre; for (size_t i = 0; i < EX.prefix.size(); ++i) { if (i) pre += ','; pre += std::to_string(EX.prefix[i]); }
     a.push_back("--single-unit"); a.push_back(std::to_string(ui)); a.push_back("--prefix"); a.push_back(pre.empty() ? "-" : pre);
+    a.push_back("--slice"); a.push_back(std::to_string(g_slice)); a.push_back("--nsplit"); a.push_back(std::to_string(g_nsplit));
     a.push_back("--out-fd"); a.push_back(std::to_string(fds[1]));
     std::vector<char *> av; for (auto &x : a) av.push_back(&x[0]); av.push_back(nullptr);
     execv("/proc/self/exe", av.data());
@@ -360,10 +368,18 @@ static int spawn(int ui, bool single) {
 
 static std::map<std::string, Crash> g_confirmed;
 
-static void run_unit(int ui) {
-  EX = vx::Explorer(); EX.max_deviations = g_thorough ? 2 : 1;
-  if (g_thorough && !(g_units[ui].header.num_vars != 1 && g_units[ui].header.num_funcs == 1 &&
-                      (g_units[ui].header.num_common_exprs() == 1) == (g_units[ui].header.num_vars > 0))) EX.max_deviations = 1;
+// two deviations (thorough) on 8 corner headers; one deviation everywhere else
+static bool two_dev_unit(const Unit &u) {
+  const mp::NLHeader &h = u.header;
+  if (h.num_vars == 1 || h.num_funcs != 1 || (h.num_common_exprs() == 1) != (h.num_vars > 0)) return false;
+  int a = h.num_algebraic_cons, l = h.num_logical_cons, o = h.num_objs;
+  return (a == 1 && l == 0 && o == 0) || (a == 0 && l == 1 && o == 0) || (a == 0 && l == 0 && o == 1) || (a == 1 && l == 1 && o == 1);
+}
+enum { NSPLIT2 = 16 };
+
+static void run_unit(int ui, int slice, int nsplit, int maxdev) {
+  EX = vx::Explorer(); EX.max_deviations = maxdev;
+  g_slice = slice; g_nsplit = nsplit;
   EX.prefix.clear();
   for (long guard = 0; guard < 10000000; ++guard) {
     g_shm->unit_done = 0; g_shm->ntrace = 0;
@@ -433,6 +449,7 @@ int main(int argc, char **argv) {
   if (const char *su = vx::arg_value(argc, argv, "--single-unit")) {
     std::string pre = vx::arg_value(argc, argv, "--prefix", "-");
     EX.max_deviations = -1; EX.prefix.clear();
+    g_slice = atoi(vx::arg_value(argc, argv, "--slice", "0")); g_nsplit = atoi(vx::arg_value(argc, argv, "--nsplit", "1"));
     if (pre != "-") { size_t p = 0; while (p < pre.size()) { EX.prefix.push_back(atoi(pre.c_str() + p)); p = pre.find(',', p); if (p == std::string::npos) break; ++p; } }
     child_unit(atoi(vx::arg_value(argc, argv, "--out-fd", "1")), atoi(su), true);
     return 0;
@@ -444,6 +461,7 @@ int main(int argc, char **argv) {
   { std::string cmd = "mkdir -p '" + g_work + "'"; if (system(cmd.c_str()) != 0) { Rp.broken("cannot create work dir"); Rp.done(); return 0; } }
   if (const char *rp = vx::arg_value(argc, argv, "--replay")) {   // {"layer":"P","unit":U,"prefix":[...]}
     std::string r = rp; int ui = atoi(r.c_str() + r.find("\"unit\":") + 7);
+    if (r.find("\"slice\":") != std::string::npos) { g_slice = atoi(r.c_str() + r.find("\"slice\":") + 8); g_nsplit = atoi(r.c_str() + r.find("\"nsplit\":") + 9); }
     EX.prefix.clear(); size_t p = r.find("\"prefix\":[");
     if (p != std::string::npos) { p += 10; while (p < r.size() && r[p] != ']') { EX.prefix.push_back(atoi(r.c_str() + p)); p = r.find_first_of(",]", p); if (r[p] == ',') ++p; } }
     int st = spawn(ui, true);
@@ -454,7 +472,15 @@ int main(int argc, char **argv) {
     Rp.done();
     return 0;
   }
-  for (int ui = 0; ui < (int)g_units.size(); ++ui) if (S.mine(ui)) { run_unit(ui); Rp.stats["p_units"]++; }
+  {
+    long long item = 0;
+    for (int ui = 0; ui < (int)g_units.size(); ++ui) {
+      bool two = g_thorough && two_dev_unit(g_units[ui]);
+      int ns = two ? NSPLIT2 : 1;
+      for (int sl = 0; sl < ns; ++sl) if (S.mine(item++)) { run_unit(ui, sl, ns, two ? 2 : 1); Rp.stats["p_work_items"]++; }
+      if (S.i == 0) { Rp.stats["p_units"]++; if (two) Rp.stats["p_units_two_deviations"]++; }
+    }
+  }
   Rp.stats["p_executions"] = g_shm->execs; Rp.stats["p_reads"] = g_shm->reads; Rp.stats["p_reads_complete"] = g_shm->complete;
   Rp.stats["p_reads_error"] = g_shm->errors; Rp.stats["p_reads_refused"] = g_shm->refused;
   Rp.stats["p_reads_with_nested_begin_end"] = g_shm->nested;
